@@ -925,7 +925,7 @@ def _check_lonf(case, diag=None):
         for name, z in _lonf_competitors(y, T[:, v], D, order, lam, case["seed"] + v):
             pz = lonf_objective(y, z, D, lam)
             if diag is not None:
-                diag["obj"] = max(diag.get("obj", -1e9), (p0 - pz) / (abs(pz) + 1e-300))
+                diag["obj"] = max(diag.get("obj", -1e9), (p0 - pz) / (pz * LONF_OBJ_REL + atol))
             if not col.check(p0 <= pz * (1 + LONF_OBJ_REL) + atol, "lonf:objective_not_minimal",
                              lambda: f"order {order}, smooth {lam!r}, variant {v}: objective at the returned trend {p0!r} "
                                      f"exceeds the objective {pz!r} at competitor '{name}'"):
